@@ -44,16 +44,16 @@ CONSTANTS Scenarios,               \* subset of the scenario names below
           EnvAtomic                \* chain events only arrive while the attendant is idle
 
 VARIABLES scen,
-          logState, hasRes, hasCS, unres,                         \* durable: arbitrator log
+          logState, hasRes, hasCS, unres, wiped,                  \* durable: arbitrator log
           closedDb, bmark, nursery, resolvedDb, finalOut, preimg, \* durable: rest of the node
           late, vlate, published, sweepReq, spent1, spent2, spentIn, breachDone, userAsked, \* the world
-          alive, state, mq, tg, res, pendUser, pendClose, closeSent, \* volatile
+          alive, state, mq, tg, res, pendUser, pendClose, closeSent, rcpc, \* volatile
           upstream, ncrash, quirks, nw                            \* history / bookkeeping
 
-logVars   == <<logState, hasRes, hasCS, unres>>
+logVars   == <<logState, hasRes, hasCS, unres, wiped>>
 extVars   == <<closedDb, bmark, nursery, resolvedDb, finalOut, preimg>>
 worldVars == <<late, vlate, published, sweepReq, spent1, spent2, spentIn, breachDone, userAsked>>
-volVars   == <<alive, state, mq, tg, res, pendUser, pendClose, closeSent>>
+volVars   == <<alive, state, mq, tg, res, pendUser, pendClose, closeSent, rcpc>>
 histVars  == <<upstream, ncrash, quirks, nw>>
 vars      == <<scen, logVars, extVars, worldVars, volVars, histVars>>
 
@@ -178,7 +178,9 @@ Took(src, rest, st) ==
   /\ pendUser' = (pendUser /\ src # "user")
   /\ pendClose' = (pendClose /\ src # "close")
   /\ UNCHANGED <<alive, closeSent, scen, ncrash>>
-Head1(src, name) == alive /\ Begin(src) # <<>> /\ Head(Begin(src)).op = name
+\* rcpc: the ChainArbitrator goroutine that executes ResolveContract for this channel
+\* (once the channel is fully closed in the channel db its arbitrator is stopped / never created again)
+Head1(src, name) == alive /\ ~resolvedDb /\ Begin(src) # <<>> /\ Head(Begin(src)).op = name
 
 MUps(src, h) ==
   /\ Head1(src, "Ups")
@@ -187,7 +189,7 @@ MUps(src, h) ==
      /\ upstream' = [upstream EXCEPT ![h] = @ \cup {o.a}]
      /\ Took(src, IF o.s = {h} THEN Tail(q) ELSE <<Op("Ups", o.a, o.s \ {h})>> \o Tail(q), state)
   /\ res' = ResAfter(src)
-  /\ UNCHANGED <<logVars, extVars, worldVars, state, quirks, nw>>
+  /\ UNCHANGED <<logVars, extVars, worldVars, state, quirks, nw, rcpc>>
 
 MCommit(src) ==
   /\ Head1(src, "Commit")
@@ -195,7 +197,7 @@ MCommit(src) ==
      /\ logState' = o.a /\ state' = o.a
      /\ Took(src, Tail(q), o.a)
   /\ res' = ResAfter(src) /\ nw' = nw + 1
-  /\ UNCHANGED <<hasRes, hasCS, unres, extVars, worldVars, upstream, quirks>>
+  /\ UNCHANGED <<hasRes, hasCS, unres, wiped, extVars, worldVars, upstream, quirks, rcpc>>
 
 \* durable writes of the attendant outside / inside the log that set one flag
 MFlag(src, name) ==
@@ -206,27 +208,37 @@ MFlag(src, name) ==
   /\ hasRes'     = (hasRes \/ name = "LogRes")
   /\ hasCS'      = (hasCS \/ name = "InsCS")
   /\ closedDb'   = (closedDb \/ name = "MarkClosed")
-  /\ resolvedDb' = (resolvedDb \/ name = "NotifyResolved")
-  /\ UNCHANGED <<logState, unres, nursery, finalOut, preimg, worldVars, state, upstream, quirks>>
+  /\ UNCHANGED <<logState, unres, wiped, nursery, resolvedDb, finalOut, preimg, worldVars, state, upstream,
+                 quirks, rcpc>>
 MMarkB(src)      == MFlag(src, "MarkB")
 MLogRes(src)     == MFlag(src, "LogRes")
 MInsCS(src)      == MFlag(src, "InsCS")
 MMarkClosed(src) == MFlag(src, "MarkClosed")
-MNotify(src)     == MFlag(src, "NotifyResolved")
+
+\* stateStep(StateFullyResolved): NotifyChannelResolved hands the channel to the ChainArbitrator, whose
+\* ResolveContract FIRST marks the channel fully closed in the channel db (so that no arbitrator is ever
+\* created for it again) - the hand-off itself is volatile and is fused with that write - and only then
+\* wipes the arbitrator log (RCWipe)
+MNotify(src) ==
+  /\ Head1(src, "NotifyResolved") /\ rcpc = "idle"
+  /\ Took(src, Tail(Begin(src)), state)
+  /\ res' = ResAfter(src) /\ nw' = nw + 1
+  /\ resolvedDb' = TRUE /\ rcpc' = "wipe"
+  /\ UNCHANGED <<logVars, closedDb, bmark, nursery, finalOut, preimg, worldVars, state, upstream, quirks>>
 
 MPublish(src) ==
   /\ Head1(src, "Publish")
   /\ Took(src, Tail(Begin(src)), state)
   /\ res' = ResAfter(src) /\ published' = TRUE
   /\ UNCHANGED <<logVars, extVars, late, vlate, sweepReq, spent1, spent2, spentIn, breachDone, userAsked,
-                 state, upstream, quirks, nw>>
+                 state, upstream, quirks, nw, rcpc>>
 
 MFinal(src) ==
   /\ Head1(src, "Final")
   /\ finalOut' = [finalOut EXCEPT ![Head(Begin(src)).a] = "failed"]
   /\ Took(src, Tail(Begin(src)), state)
   /\ res' = ResAfter(src) /\ nw' = nw + 1
-  /\ UNCHANGED <<logVars, closedDb, bmark, nursery, resolvedDb, preimg, worldVars, state, upstream, quirks>>
+  /\ UNCHANGED <<logVars, closedDb, bmark, nursery, resolvedDb, preimg, worldVars, state, upstream, quirks, rcpc>>
 
 \* InsertUnresolvedContracts + resolveContracts: fresh resolvers are written OVER whatever the bucket
 \* holds under their keys, the active set is replaced, one goroutine per resolver is started
@@ -240,7 +252,7 @@ MInsUnres(src) ==
                                 THEN {"H3"} ELSE {})
   /\ Took(src, Tail(Begin(src)), state)
   /\ nw' = nw + 1
-  /\ UNCHANGED <<logState, hasRes, hasCS, extVars, worldVars, state, upstream>>
+  /\ UNCHANGED <<logState, hasRes, hasCS, wiped, extVars, worldVars, state, upstream, rcpc>>
 
 Main == \E src \in Srcs :
           \/ \E h \in HTLCs : MUps(src, h)
@@ -251,7 +263,7 @@ Main == \E src \in Srcs :
 Active(r) == alive /\ res[r].kind # "none"
 \* a resolver checkpoint-type write; CommitBeforeCheckpoint is the timing assumption H3
 CkptOK == CommitBeforeCheckpoint => logState # "ContractClosed"
-RSame == UNCHANGED <<scen, alive, state, mq, tg, pendUser, pendClose, closeSent, ncrash, quirks>>
+RSame == UNCHANGED <<scen, alive, state, mq, tg, pendUser, pendClose, closeSent, ncrash, quirks, rcpc>>
 
 \* Launch: only the direct timeout sweep on the remote commitment leaves a trace (sweep request)
 RLaunch(r) ==
@@ -308,7 +320,7 @@ RCheckpoint(r) ==
         /\ res' = [res EXCEPT ![r].resolved = TRUE, ![r].pc = "rm"]
   /\ unres' = [unres EXCEPT ![r] = Rec(res'[r].kind, res'[r].stage, res'[r].resolved)]
   /\ nw' = nw + 1
-  /\ RSame /\ UNCHANGED <<logState, hasRes, hasCS, extVars, worldVars, upstream>>
+  /\ RSame /\ UNCHANGED <<logState, hasRes, hasCS, wiped, extVars, worldVars, upstream>>
 
 \* SwapContract: contest resolver -> timeout resolver at expiry; incoming contest -> success resolver
 RSwap(r) ==
@@ -319,7 +331,7 @@ RSwap(r) ==
         /\ res' = [res EXCEPT ![r].kind = "success"]
   /\ unres' = [unres EXCEPT ![r] = Rec(res'[r].kind, res'[r].stage, FALSE)]
   /\ nw' = nw + 1
-  /\ RSame /\ UNCHANGED <<logState, hasRes, hasCS, extVars, worldVars, upstream>>
+  /\ RSame /\ UNCHANGED <<logState, hasRes, hasCS, wiped, extVars, worldVars, upstream>>
 
 \* success resolver on our commitment (legacy): publish the second-level tx
 RPublish(r) ==
@@ -341,7 +353,7 @@ RResolve(r) ==
   /\ unres' = [unres EXCEPT ![r] = NoRec]
   /\ res' = [res EXCEPT ![r].pc = "signal"]
   /\ nw' = nw + 1
-  /\ RSame /\ UNCHANGED <<logState, hasRes, hasCS, extVars, worldVars, upstream>>
+  /\ RSame /\ UNCHANGED <<logState, hasRes, hasCS, wiped, extVars, worldVars, upstream>>
 
 Resolver == \E r \in Rid : \/ RLaunch(r) \/ RNursery(r) \/ RPreimage(r) \/ RCheckpoint(r) \/ RSwap(r)
                            \/ RPublish(r) \/ RFinal(r) \/ RResolve(r)
@@ -349,7 +361,7 @@ Resolver == \E r \in Rid : \/ RLaunch(r) \/ RNursery(r) \/ RPreimage(r) \/ RChec
 
 (* ---- the world --------------------------------------------------------------------- *)
 EnvOK == EnvAtomic => (~alive \/ EffQ = <<>>)
-ESame == UNCHANGED <<scen, logVars, extVars, alive, state, mq, tg, res, histVars>>
+ESame == UNCHANGED <<scen, logVars, extVars, alive, state, mq, tg, res, rcpc, histVars>>
 
 Tick1 == ~late /\ late' = TRUE
          /\ ESame /\ UNCHANGED <<vlate, published, sweepReq, spent1, spent2, spentIn, breachDone, userAsked,
@@ -392,20 +404,23 @@ FailbackBeforeDecision == logState = "Default" /\ ~closedDb /\ \E h \in HTLCs : 
 Crash ==
   /\ alive /\ ncrash < MaxCrashes
   /\ alive' = FALSE /\ mq' = <<>> /\ res' = NoVol
-  /\ pendUser' = FALSE /\ pendClose' = FALSE /\ closeSent' = FALSE
+  /\ pendUser' = FALSE /\ pendClose' = FALSE /\ closeSent' = FALSE /\ rcpc' = "idle"
   /\ ncrash' = ncrash + 1
   /\ quirks' = IF FailbackBeforeDecision THEN quirks \cup {"F9"} ELSE quirks
   /\ UNCHANGED <<scen, logVars, extVars, worldVars, state, tg, upstream, nw>>
 
 \* ChainArbitrator.Start + ChannelArbitrator.Start/progressStateMachineAfterRestart/relaunchResolvers
 Restart ==
-  /\ ~alive /\ alive' = TRUE
+  /\ ~alive /\ alive' = TRUE /\ rcpc' = "idle"
   /\ state' = logState
   /\ LET t == IF closedDb /\ (logState \in {"Default", "BroadcastCommit", "CommitmentBroadcasted"}
                               \/ (FccFixed /\ logState = "ContractClosed"))
               THEN CloseTrig ELSE "chain" IN
      /\ tg' = t
-     /\ IF logState = "WaitingFullResolution"
+     /\ IF resolvedDb
+        THEN \* fully closed in the channel db: no arbitrator is created for the channel any more
+             mq' = <<>> /\ res' = NoVol /\ quirks' = quirks
+        ELSE IF logState = "WaitingFullResolution"
         THEN IF UnresEmpty
              THEN mq' = Go("FullyResolved") /\ res' = NoVol /\ quirks' = quirks
              ELSE /\ mq' = <<>>
@@ -418,6 +433,15 @@ Restart ==
   /\ UNCHANGED <<scen, logVars, extVars, late, vlate, sweepReq, spent1, spent2, spentIn, breachDone, userAsked,
                  pendUser, pendClose, closeSent, upstream, ncrash, nw>>
 
+\* ChainArbitrator.ResolveContract, second durable effect: the arbitrator log of the channel is wiped
+\* (the arbitrator has been stopped in between)
+RCWipe ==
+  /\ alive /\ rcpc = "wipe"
+  /\ logState' = "Default" /\ hasRes' = FALSE /\ hasCS' = FALSE /\ unres' = [r \in Rid |-> NoRec]
+  /\ wiped' = TRUE /\ rcpc' = "done" /\ nw' = nw + 1
+  /\ UNCHANGED <<scen, extVars, worldVars, alive, state, mq, tg, res, pendUser, pendClose, closeSent,
+                 upstream, ncrash, quirks>>
+
 (* ---- outcome ---------------------------------------------------------------------------- *)
 RefUp == [h \in HTLCs |-> CASE h = "od" -> (IF HasOD THEN {"fail"} ELSE {})
                             [] h = "o"  -> (IF ~HasO THEN {} ELSE IF scen = "claim" THEN {"settle"} ELSE {"fail"})
@@ -426,10 +450,13 @@ RefFin == [h \in HTLCs |-> CASE h = "id" -> (IF HasID /\ Kind # "breach" THEN "f
                              [] h = "i"  -> (IF HasI THEN "settled" ELSE "none")
                              [] OTHER -> "none"]
 \* the terminal outcome of the uninterrupted run (MaxCrashes = 0 reaches exactly this, see ArbitratorMC)
-ReferenceOutcome == /\ logState = "FullyResolved" /\ UnresEmpty /\ resolvedDb
+\* the channel is marked fully closed; the log is wiped, or - if the stop came between the two writes of
+\* ResolveContract - left behind in its final state (nothing will ever read it again)
+ReferenceOutcome == /\ resolvedDb /\ UnresEmpty
+                    /\ (wiped /\ logState = "Default") \/ (~wiped /\ logState = "FullyResolved")
                     /\ upstream = RefUp /\ finalOut = RefFin
 \* the stop came before anything of the close was durable or visible: nothing to resume
-Untouched == /\ logState = "Default" /\ ~closedDb /\ ~bmark /\ ~published /\ ~hasRes /\ ~hasCS
+Untouched == /\ logState = "Default" /\ ~closedDb /\ ~bmark /\ ~published /\ ~hasRes /\ ~hasCS /\ ~wiped
              /\ \A h \in HTLCs : upstream[h] = {} /\ finalOut[h] = "none"
 Finished == alive /\ (ReferenceOutcome \/ Untouched) /\ UNCHANGED vars
 
@@ -437,6 +464,7 @@ Finished == alive /\ (ReferenceOutcome \/ Untouched) /\ UNCHANGED vars
 Init ==
   /\ scen \in Scenarios
   /\ logState = "Default" /\ hasRes = FALSE /\ hasCS = FALSE /\ unres = [r \in Rid |-> NoRec]
+  /\ wiped = FALSE /\ rcpc = "idle"
   /\ closedDb = FALSE /\ bmark = FALSE /\ nursery = FALSE /\ resolvedDb = FALSE
   /\ finalOut = [h \in HTLCs |-> "none"] /\ preimg = FALSE
   /\ late = FALSE /\ vlate = FALSE /\ published = FALSE /\ sweepReq = FALSE
@@ -445,13 +473,16 @@ Init ==
   /\ pendUser = FALSE /\ pendClose = FALSE /\ closeSent = FALSE
   /\ upstream = [h \in HTLCs |-> {}] /\ ncrash = 0 /\ quirks = {} /\ nw = 0
 
-Next == Main \/ Resolver \/ Env \/ Crash \/ Restart \/ Finished
+Next == Main \/ Resolver \/ Env \/ Crash \/ Restart \/ RCWipe \/ Finished
 Spec == Init /\ [][Next]_vars
 
 (* ---- the property ------------------------------------------------------------------------------ *)
 \* the channel is marked fully resolved only after all contracts are resolved
 ResolvedOnlyWhenEmpty == (logState = "FullyResolved" \/ resolvedDb) => UnresEmpty
-MarkedOnlyWhenResolved == resolvedDb => logState = "FullyResolved"
+MarkedOnlyWhenResolved == resolvedDb => (logState = "FullyResolved" \/ wiped)
+\* the log is wiped only after the channel has left the set of pending-close channels: no restart ever finds a
+\* channel that is pending close with an empty log
+NoPendingCloseWithEmptyLog == wiped => resolvedDb
 \* never contradictory upstream resolutions
 UpstreamConsistent == \A h \in HTLCs : Cardinality(upstream[h]) <= 1
 \* no resolver and no checkpointed progress is lost: a record leaves the bucket only once it is
